@@ -59,7 +59,17 @@ def dead(pid):
 
 
 def kill_pids(pids):
-    for p in pids:
+    if T.exit_status(HOW) is not None:
+        # death with an exit status: the thread armed in the worker during the warm-up call does os._exit(k)
+        for p in pids:
+            tmp = "exit_%d.tmp" % p
+            with open(tmp, "w") as f:
+                f.write(str(T.exit_status(HOW)))
+            os.rename(tmp, "exit_%d" % p)
+        pids_sig = []
+    else:
+        pids_sig = pids
+    for p in pids_sig:
         try:
             os.kill(p, T.signum(HOW))
         except ProcessLookupError:
@@ -67,6 +77,9 @@ def kill_pids(pids):
     t = time.time()
     while time.time() - t < 10 and not all(dead(p) for p in pids):
         time.sleep(0.005)
+
+
+BETWEEN_KINDS = ("idle_settled", "idle_unsettled", "startup_gen", "startup_reduce", "submit_window")
 
 
 def n_tasks_of(call_no):
@@ -115,7 +128,8 @@ def make_tasks(call_no, victim_pids):
             fault = "slow_result"
         if call_no == 1 and KIND == "startup_reduce" and i == 0:
             arg = T.KillOnPickle(victim_pids, HOW, i)
-        items.append(delayed(T.task)(i, fault, HOW, arg, sc.get("sleep", 0.0)))
+        arm = call_no == 0 and T.exit_status(HOW) is not None and KIND in BETWEEN_KINDS
+        items.append(delayed(T.task)(i, fault, HOW, arg, sc.get("sleep", 0.0), arm))
     if call_no == 1 and KIND == "startup_gen":
         def gen():
             kill_pids(victim_pids)          # the first next(): configure() is done, nothing submitted yet
@@ -123,6 +137,9 @@ def make_tasks(call_no, victim_pids):
                 yield it
         return gen()
     return items
+
+
+LAST = {}
 
 
 def one_call(par, call_no, victim_pids):
@@ -142,6 +159,7 @@ def one_call(par, call_no, victim_pids):
         if vals != exp:
             rec["got"] = vals[:50]
         rec["pids"] = sorted(set(x[1] for x in r if isinstance(x, tuple)))
+        LAST["pids"] = rec["pids"]
     except BaseException as e:  # noqa
         rec["outcome"] = "raise"
         rec["exc"] = type(e).__name__
@@ -161,6 +179,8 @@ def mgr_alive(e):
 def scenario(par):
     one_call(par, 0, [])
     st = exec_state()
+    if T.exit_status(HOW) is not None and KIND in BETWEEN_KINDS and LAST.get("pids"):
+        st = dict(st, pids=[p for p in st["pids"] if p in LAST["pids"]] or st["pids"])
     victim_pids = []
     if KIND in ("idle_settled", "idle_unsettled", "startup_gen", "startup_reduce", "submit_window"):
         victim_pids = [st["pids"][j % len(st["pids"])] for j in sc["victims"]] if st["pids"] else []
